@@ -81,7 +81,8 @@ class Chk:
         self.fails = {}
         LAST["chk"] = self
 
-    def eq(self, label, a, b, kind):
+    def eq(self, label, a, b, kind, relative=False):
+        """relative=True: quantities that are tiny by design (shift ~ 1e-76) are compared relative to their own size."""
         if self.P is not None:
             self.P.eq(label, a, b, kind=kind)
         else:
@@ -90,7 +91,7 @@ class Chk:
             except (TypeError, ValueError):
                 self.fails[label] = "non-numeric value %r vs %r" % (a, b)
                 return
-            if not abs(a - b) <= 1e-9 * max(1.0, abs(a), abs(b)):
+            if not abs(a - b) <= 1e-9 * max(0.0 if relative else 1.0, abs(a), abs(b)):
                 self.fails[label] = "%r != %r" % (a, b)
 
     def le(self, label, a, b, kind):
@@ -719,8 +720,9 @@ def sc_params(V, P, cfg):
     q_ref = p + lg(1.0 * nsv) / lg(xi)
     K.eq("q == p + ln(ns)/ln(xi_0)", m.q, q_ref, "parameters")
     sh_ref = 100.0 * pw(tiny, 1.0 / p)
-    K.eq("shift == 100 tiny^(1/p)", m.shift, sh_ref, "parameters")
-    K.eq("backshift == 0.95 ns^(1/q) shift^(p/q)", m.backshift, pw(nsv, 1 / q_ref) * pw(sh_ref, p / q_ref) * 0.95, "parameters")
+    K.eq("shift == 100 tiny^(1/p)", m.shift, sh_ref, "parameters", relative=True)
+    K.eq("backshift == 0.95 ns^(1/q) shift^(p/q)", m.backshift, pw(nsv, 1 / q_ref) * pw(sh_ref, p / q_ref) * 0.95, "parameters",
+         relative=True)
     return dict(q=m.q)
 
 
